@@ -304,6 +304,15 @@ access(all) fun main(): [Int] { let s = attach A(5) to S(7); var n = 0; s.forEac
 access(all) fun main(): [Int] { let sq = Shapes.Square(2); let r = &sq as auth(Shapes.Grow) &Shapes.Square; r.grow(); r.grow(); let plain = r as &Shapes.Square; let back = plain as? auth(Shapes.Grow) &Shapes.Square; let opt: Int? = nil; return [sq.area(), plain.area(), back == nil ? 0 : 1, opt ?? 9] }`)))
 	add(item("ranges-and-numbers", []string{"script", "range", "numbers", "fixedpoint"},
 		script(`access(all) fun main(): [AnyStruct] { var t: Int = 0; for i in InclusiveRange(1, 30, step: 3) { t = t + i }; let big: UInt256 = 1 << 200; let f: UFix64 = 1.5 * 2.25; let w: Word8 = Word8(250) + Word8(10); let s: Int8 = Int8(100).saturatingAdd(100); return [t, big / UInt256(7), f, w, s, (-7) % 3, Int.fromString("123")!, UInt8(255).toBigEndianBytes(), UInt16.fromBigEndianBytes([1, 2])] }`)))
+	// storage iteration over values whose types live in another program: the iteration loads the
+	// type's program (GetOrLoadProgram) without the iterating transaction importing it (FX9)
+	add(item("tx-foreachstored-imported-types", []string{"deploy", "tx", "storage-iteration", "import-at-runtime"},
+		dep(1, "Counter", contractCounter),
+		tx(`import Counter from 0x1
+transaction { prepare(a: auth(Storage, Capabilities) &Account) { a.storage.save(Counter.Point(x: 1, y: 2), to: /storage/pt); a.storage.save(<- Counter.mk(3), to: /storage/box); a.storage.save(7, to: /storage/seven)
+ a.capabilities.publish(a.capabilities.storage.issue<&Counter.Box>(/storage/box), at: /public/box) } }`, 2),
+		tx(`transaction { prepare(a: auth(Storage) &Account) { var n = 0; a.storage.forEachStored(fun (p: StoragePath, t: Type): Bool { log(p); log(t); n = n + 1; return true })
+ a.storage.forEachPublic(fun (p: PublicPath, t: Type): Bool { log(p); log(t); n = n + 1; return true }); log(n) } }`, 2)))
 	add(item("import-missing", []string{"script", "user-error", "import-error"},
 		mayFail(script(`import Nope from 0x5
 access(all) fun main(): Int { return 1 }`))))
